@@ -12,7 +12,7 @@ META = {
             'directly: valid PDA, language equal to the original on all words <=3 (exact summary-saturation oracle on both sides), '
             'push/pop form really push/pop, empty-stack form accepts only with empty stack; pda_to_cfg on small PDAs: grammar language '
             '(span-saturation oracle) equal to the PDA language on all words <=3 (2); input untouched; non-trivial = PDA accepting some '
-            'non-empty word with a stack operation; distinct by content; also state names with \'_\' and with an apostrophe (the recorded variable-name finding), ambiguous stack symbols',
+            'non-empty word with a stack operation; distinct by content; also state names with \'_\' and with an apostrophe (the recorded variable-name finding), ambiguous stack symbols; finite-state recognisers (value modulo 6-9) written as PDAs with 12-18 no-op moves, compared on probe words of length 4-6',
     'assumptions': ['PDA.valid (constructor); delta is a defaultdict(set) as the parser builds it'],
     'trusted_base': ['Spec: Gamba/Spec/PDA.lean, Gamba/Spec/CFG.lean'],
 }
@@ -31,6 +31,10 @@ def cases(ctx):
         P = gen.ambiguous_stack_pda(rng) if i % 25 == 4 else gen.random_pda(rng, markers=True)
         if not thorough or ctx.mine(i):
             yield {'P': P, 'cfg': False}
+    for i in range(6 if not thorough else 60):      # 12-18 moves that neither push nor pop (more than ten intermediate states M1, M2, ...)
+        P, probes = gen.noop_heavy_pda(rng)
+        if not thorough or ctx.mine(i):
+            yield {'P': P, 'cfg': False, 'probe': probes}
     for i in range(6 if not thorough else 40):
         P, w = word_chain_pda(rng)
         yield {'P': P, 'cfg': True, 'probe': [w, w[:-1], w + 'a']}
@@ -126,6 +130,11 @@ def judge(ctx, c, answers):
             L = lang(N, n)
             if L != ref:
                 problems.append('language differs on %r' % sorted(L ^ ref, key=len)[0])
+            else:
+                for w in c.get('probe', []):          # longer probe words
+                    if oracles.pda_accepts(N, w) != oracles.pda_accepts(P, w):
+                        problems.append('language differs on %r' % w)
+                        break
             if name == 'pda_to_one_accepting_state' and len(N.F) != 1 and len(P.F) != 1:
                 problems.append('not exactly one accepting state')
             if name == 'pda_to_push_pop' and not all((u == N.epsilon) != (v == N.epsilon) for (_, _, u), T in N.delta.items() for (_, v) in T):
